@@ -94,6 +94,10 @@ pub struct Scn {
     pub selects: Vec<Vec<Src>>,
     /// late senders: sender i sends `count` messages 100 + 10*i + j, with `gap` busy work before each
     pub late: Vec<(u8, u16)>,
+    /// spelling of type-only receive sources (the model is the same): bit 0 writes `#'bin` as the
+    /// builtin `&__binary_length__` (a builtin is a receive source of its parameter type), bit 1
+    /// writes `#'int` as `&__integer_abs__`
+    pub forms: u8,
 }
 
 #[derive(Clone, Debug)]
@@ -122,12 +126,12 @@ pub fn scn() -> impl Strategy<Value = Scn> {
     let work = prop_oneof![2 => 0u16..30, 2 => 30u16..600];
     let sel = prop::collection::vec(src(), 1..5);
     let item = prop_oneof![3 => -2i8..12, 2 => 64i8..76];
-    let multi = (prop::collection::vec(item.clone(), 0..6), prop::collection::vec(sel, 1..4), prop::collection::vec((1u8..6, work.clone()), 0..3)).prop_map(|(preload, selects, late)| Scn { preload, selects, late });
+    let multi = (prop::collection::vec(item.clone(), 0..6), prop::collection::vec(sel, 1..4), prop::collection::vec((1u8..6, work.clone()), 0..3), prop_oneof![3 => Just(0u8), 2 => 1u8..4]).prop_map(|(preload, selects, late, forms)| Scn { preload, selects, late, forms });
     // single-select scenarios that may contain a failing process
     let failing = (prop::collection::vec(item, 0..3), prop::collection::vec(src(), 0..3), work, any::<u8>()).prop_map(|(preload, mut s, w, pos)| {
         let at = (pos as usize) % (s.len() + 1);
         s.insert(at, Src::AwaitFail(w));
-        Scn { preload, selects: vec![s], late: vec![] }
+        Scn { preload, selects: vec![s], late: vec![], forms: pos >> 6 }
     });
     prop_oneof![5 => multi, 1 => failing]
 }
@@ -201,6 +205,8 @@ pub fn render(s: &Scn) -> String {
                 Src::AwaitNever => "nv".to_string(),
                 Src::AwaitMaybe(..) => format!("m{si}_{k}"),
                 Src::AwaitFail(_) => format!("f{si}_{k}"),
+                Src::RecvInt if s.forms & 2 != 0 => "&__integer_abs__".to_string(),
+                Src::RecvBin if s.forms & 1 != 0 => "&__binary_length__".to_string(),
                 Src::RecvInt => "#'int".to_string(),
                 Src::RecvFilter(p) => p.render(),
                 Src::RecvTag => "#T['int]".to_string(),
@@ -566,6 +572,8 @@ pub fn run(ctx: &Ctx) -> i32 {
                                 stats.class("source:process-finishing-during-select")
                             }
                             Src::AwaitFail(_) => stats.class("source:failing-process"),
+                            Src::RecvInt if case.scn.forms & 2 != 0 => stats.class("source:builtin-as-receiver"),
+                            Src::RecvBin if case.scn.forms & 1 != 0 => stats.class("source:builtin-as-receiver"),
                             Src::RecvFilter(Pred::AlwaysValue) => stats.class("filter-evaluates-to-a-value"),
                             Src::RecvFilter(_) => stats.class("source:filter"),
                             Src::RecvTagFilter(_) => stats.class("source:filter-skipping-other-typed-messages"),
@@ -614,7 +622,7 @@ pub fn run(ctx: &Ctx) -> i32 {
         let reg = qrun::registry();
         for e in known.known_for(ctx.id) {
             if e.signature == "witness:error-preempts-ready-source" {
-                let scn = Scn { preload: vec![0], selects: vec![vec![Src::RecvInt, Src::AwaitFail(0)]], late: vec![] };
+                let scn = Scn { preload: vec![0], selects: vec![vec![Src::RecvInt, Src::AwaitFail(0)]], late: vec![], forms: 0 };
                 match check_opt(&Case { scn, cfgs: vec![] }, &reg, true) {
                     Err((sig, _)) if sig == "select:priority" => stats.known_hit(&e.signature),
                     Err((sig, msg)) => violations.push(Violation { signature: sig, summary: msg, replay: json!({"kind": "c05"}) }),
@@ -659,7 +667,7 @@ fn scn_to_json(s: &Scn) -> serde_json::Value {
             Pred::AlwaysValue => json!("alwaysvalue"),
         },
     };
-    json!({"preload": s.preload, "late": s.late.iter().map(|(c, g)| json!([c, g])).collect::<Vec<_>>(), "selects": s.selects.iter().map(|sel| sel.iter().map(src).collect::<Vec<_>>()).collect::<Vec<_>>()})
+    json!({"preload": s.preload, "forms": s.forms, "late": s.late.iter().map(|(c, g)| json!([c, g])).collect::<Vec<_>>(), "selects": s.selects.iter().map(|sel| sel.iter().map(src).collect::<Vec<_>>()).collect::<Vec<_>>()})
 }
 
 fn scn_from_json(j: &serde_json::Value) -> Option<Scn> {
@@ -714,6 +722,7 @@ fn scn_from_json(j: &serde_json::Value) -> Option<Scn> {
         None
     };
     Some(Scn {
+        forms: j["forms"].as_u64().unwrap_or(0) as u8,
         preload: j["preload"].as_array()?.iter().filter_map(|x| x.as_i64().map(|v| v as i8)).collect(),
         late: j["late"].as_array()?.iter().filter_map(|x| Some((x[0].as_u64()? as u8, x[1].as_u64()? as u16))).collect(),
         selects: j["selects"].as_array()?.iter().map(|sel| sel.as_array().map(|a| a.iter().filter_map(src).collect()).unwrap_or_default()).collect(),
